@@ -89,6 +89,17 @@ CHECKS = {
         "Trusted: CPython datetime/calendar; day<->date bijection (C01).",
         "DESIGN.md §2 C16",
     ),
+    "C04": (
+        "exploration",
+        "exhaustive interval walks with invariants (finite interval structure) + Hypothesis-generated instants, offsets and synthetic zones",
+        "Every provider zone is walked from the start of time checking: looked-up interval contains the instant, "
+        "intervals abut, neighbours differ, exactly one endless interval terminates the walk, reported offset = wall "
+        "offset at start / end-1ns / interior, wall = standard + savings, wall within min/max offset, window queries "
+        "equal the walked slice, caching wrapper = wrapped zone. thorough walks all ~1.84M intervals (exhaustive=true); "
+        "quick walks all stored periods and sampled tail years. Non-terminating lookups are confirmed by a call budget.",
+        "Trusted: CPython ints. Synthetic zones built from generated yearly rules extend the search beyond the bundled data.",
+        "DESIGN.md §2 C04",
+    ),
     "C09": (
         "exploration",
         "Hypothesis property-based testing: day-number and month-line reference models, documented year rules, algebraic laws of Period.between/normalize",
